@@ -125,6 +125,10 @@ def obligations(tier, seed):
     for n, idx in ((1, 0), (2, 1), (3, 1)):
         for sig in (0, 1): obs.append(dict(name='tap-tx/n%d/index%d/sig%d/two-spend-args' % (n, idx, sig), kind='taptx', n=n, idx=idx, parity=3 - (n & 1), symleaves=[idx], sig=sig, spendargs=[[0x07], [0x01, 0x02, 0x03]], cost=n))
     for slen in (253,) if tier == 'quick' else (29, 252, 253, 254): obs.append(dict(name='tap-tx/n2/index1/sig1/leaf%dbytes' % slen, kind='taptx', n=2, idx=1, parity=2, symleaves=[1], sig=1, slen=slen, cost=3))
+    # --addrprefix: the human-readable part is used as given (BIP173 allows '1' inside and at the end of it; seed C06-8)
+    for hrp in (b'tb', b'bc', b'x1', b'tb1', b'1', b'a1b', b'11', b'q1q1'):
+        obs.append(dict(name='tap/n1/noindex/hrp-%s' % hrp.decode(), kind='tap', n=1, idx=None, hrp=hrp, cost=2))
+        if hrp in (b'x1', b'tb'): obs.append(dict(name='tap/n2/index1/parity2/hrp-%s' % hrp.decode(), kind='tap', n=2, idx=1, parity=2, hrp=hrp, cost=4))
     return obs
 
 SIG64 = [(5 * i + 1) & 0xff for i in range(64)]
@@ -161,6 +165,7 @@ def argv_for(ob, V=None):
         else: args.append(C07.to_hex(full_script(ob, i, [0xa0 + i % 10, 0xb0 + i % 10] if sym else s)))          # a long leaf is given as the raw hex of the script
     if ob['idx'] is not None: args.append(list(str(ob['idx']).encode()))
     for a in ob.get('spendargs', []): args.append(list(b'0x') + C07.to_hex(a))
+    if ob.get('hrp') is not None: args = [args[0], list(b'--addrprefix=') + list(ob['hrp'])] + args[1:]
     if ob.get('kind') == 'taptx':
         f_full, s_full, txid, out_spk, fields = tap_txs(V, ob.get('fvout', 0))
         opts = [list(b'--tx=') + C07.to_hex(s_full), list(b'--txin=') + C07.to_hex(f_full)]
@@ -217,7 +222,7 @@ def check_state(E, f, ob, key, scripts, res):
     if tweak is None or outkey is None: return True, 'tweak / serialisation never reached'
     bad = []
     # address = bech32m("bcrt", [1] + convertbits(output key))
-    want_addr = bech32m_ref(b'bcrt', [z3.BitVecVal(1, 5)] + convertbits_8_to_5(outkey))
+    want_addr = bech32m_ref(ob.get('hrp', b'bcrt'), [z3.BitVecVal(1, 5)] + convertbits_8_to_5(outkey))
     d = refexec.differs(addr, want_addr)
     if d is not False: bad.append(('address', d))
     if ob['idx'] is not None:
@@ -389,17 +394,38 @@ def script_args(ob, scripts):
     ob = ob or {}
     return [('[0x%s]' % bytes(s).hex()) if leaf_len(ob, i) == 3 else bytes(full_script(ob, i, s)).hex() for i, s in enumerate(scripts)]
 
+def bech32m_concrete(hrp, prog):
+    """BIP350 address of a version-1 witness program, on concrete values (replay only)"""
+    CH = 'qpzry9x8gf2tvdw0s3jn54khce6mua7l'
+    def polymod(vs):
+        c = 1
+        for v in vs:
+            b = c >> 25; c = ((c & 0x1ffffff) << 5) ^ v
+            for i, g in enumerate((0x3b6a57b2, 0x26508e6d, 0x1ea119fa, 0x3d4233dd, 0x2a1462b3)):
+                if (b >> i) & 1: c ^= g
+        return c
+    acc = 0; bits = 0; data = [1]
+    for b in prog:
+        acc = (acc << 8) | b; bits += 8
+        while bits >= 5: bits -= 5; data.append((acc >> bits) & 31)
+    if bits: data.append((acc << (5 - bits)) & 31)
+    exp = [c >> 5 for c in hrp] + [0] + [c & 31 for c in hrp]
+    pm = polymod(exp + data + [0] * 6) ^ 0x2bc830a3
+    return hrp.decode() + '1' + ''.join(CH[d] for d in data + [(pm >> 5 * (5 - i)) & 31 for i in range(6)])
+
 def native_check(exe, key, scripts, idx, ob=None, raw=False):
     """run the real tap binary and verify its output with an independent BIP341 implementation (real SHA-256; the curve step is taken from the address)"""
     import hashlib
     def tagged(tag, d): t = hashlib.sha256(tag).digest(); return hashlib.sha256(t + t + bytes(d)).digest()
-    cmd = [exe, bytes(key).hex(), str(len(scripts))] + ([('[0x%s]' % bytes(x).hex()) for x in scripts] if raw else script_args(ob, scripts)) + ([str(idx)] if idx is not None else [])          # raw: payloads of single pushes
+    cmd = [exe] + (['--addrprefix=' + bytes(ob['hrp']).decode()] if (ob or {}).get('hrp') is not None else []) + [bytes(key).hex(), str(len(scripts))] + ([('[0x%s]' % bytes(x).hex()) for x in scripts] if raw else script_args(ob, scripts)) + ([str(idx)] if idx is not None else [])          # raw: payloads of single pushes
     rc, out, err = runtool.run(cmd, stdin_tty=True, stdout_tty=True)
     txt = (out + err).replace(b'\r\n', b'\n').decode('latin1')
     import re
     ma = re.search(r'Resulting Bech32m address: (\S+)', txt); mc = re.search(r'Final control object = ([0-9a-f]+)', txt); mt = re.search(r'Tweak value = TapTweak\([0-9a-f]+ \|\| ([0-9a-f]+)\) = ([0-9a-f]+)', txt)
     if rc != 0 or not ma: return None, 'tap exit %s: %s' % (rc, txt[-300:])
     res = dict(address=ma.group(1))
+    mk = re.search(r'Tweaked pubkey = ([0-9a-f]{64})', txt)
+    if mk: res['want_address'] = bech32m_concrete(bytes((ob or {}).get('hrp', b'bcrt')), bytes.fromhex(mk.group(1)))
     if idx is not None and mc and mt:
         ctl = bytes.fromhex(mc.group(1)); script = bytes([len(scripts[idx])] + list(scripts[idx])) if raw else bytes(full_script(ob or {}, idx, scripts[idx]))
         k = tagged(b'TapLeaf', bytes([0xc0]) + bytes(hashref.compact_size(len(script))) + script)
@@ -452,6 +478,8 @@ def replay(lib, ob, cex):
         return (not r['tx_ok'] or not r['sighash_ok']), 'real tap --tx/--txin: %s' % r
     r, txt = native_check(exe, cex['key'], cex['scripts'], ob['idx'], ob)
     if r is None: return None, txt
+    if r.get('want_address') is not None and r['address'] != r['want_address']:
+        return True, 'real tap%s: address %s, bech32m of the tweaked key under the requested prefix is %s' % (' --addrprefix=' + bytes(ob['hrp']).decode() if ob.get('hrp') is not None else '', r['address'], r['want_address'])
     if ob['idx'] is None:
         r2, txt2 = native_check(exe, cex['key'], cex['scripts'], 0, ob)
         if r2 is None: return None, txt2
